@@ -529,6 +529,10 @@ func vaCheck(w *vaWorld, eng *GruleEngine, res vaResult, first int, preCancelled
 		if len(c.t) == 1 && w.nListen > 0 {
 			verif.Assert("C06:every-firing-is-announced", len(c.ex) == 1)
 		}
+		if len(c.ex) == 1 && len(c.t) == 0 {
+			// an announced execution that never happens: only a cancellation noticed between announcement and action explains it
+			verif.Assert("C06:an-announced-execution-really-happens", w.feat&fCancel != 0 && w.cancel)
+		}
 		if len(c.t) == 1 {
 			// evaluation phase strictly precedes the firing; nothing of the next cycle before the action ends
 			tpos := -1
